@@ -117,10 +117,11 @@ def rand_fault_table(rng: Rng, side_conds=DECLARABLE, p: float = 0.5) -> str:
 class DestFeeder:
     """scripted sender for a destination handler: produces a PDU schedule for one transaction"""
 
-    def __init__(self, rng: Rng, c: Cfg, seq: int, grid_only: bool = False):
+    def __init__(self, rng: Rng, c: Cfg, seq: int, grid_only: bool = False, honest: bool = False):
         self.rng, self.c, self.seq = rng, c, seq
         self.h = hdr(c, seq)
         self.grid_only = grid_only
+        self.honest = honest        # the sender's EOF always carries the true size and checksum
 
     def schedule(self) -> list[tuple]:
         """list of actions: ("pdu", text) | ("tick", ms) | ("idle",) | ("cancel", ok) | ("reject", n, exc)"""
@@ -179,7 +180,7 @@ class DestFeeder:
             ce = ("pdu", eof(self.h, cond, ref_checksum(c.cks, c.data[:k]), k,
                              floc=rng.choice(("-", c.sid))))
             seqn.insert(rng.randrange(len(seqn) + 1), ce)
-        if not self.grid_only and rng.chance(0.08):
+        if not self.grid_only and not self.honest and rng.chance(0.08):
             bad = bytes([cks[0] ^ 1]) + cks[1:]
             seqn.insert(rng.randrange(len(seqn) + 1), ("pdu", eof(self.h, 0, bad, n + rng.randrange(-1, 2) if n else 0)))
         for x in seqn:
@@ -235,7 +236,7 @@ def serve_naks_from(c: Cfg, h: str, nak_pdu: str) -> list[str]:
 
 
 def dest_session(rng: Rng, grid_only: bool = False, fs_kind: str = "mem", n_tx: int | None = None,
-                 cfg: Cfg | None = None, serve: float = 0.5) -> Session:
+                 cfg: Cfg | None = None, serve: float = 0.5, honest: bool = False) -> Session:
     c = cfg or rand_cfg(rng)
     if cfg is None:
         c.faults_d = "" if grid_only else rand_fault_table(rng, p=0.35)
@@ -243,7 +244,7 @@ def dest_session(rng: Rng, grid_only: bool = False, fs_kind: str = "mem", n_tx: 
     seq = c.seqnext
     n_tx = n_tx or rng.choice((1, 1, 1, 2, 3))
     for t in range(n_tx):
-        feeder = DestFeeder(rng, c, seq, grid_only)
+        feeder = DestFeeder(rng, c, seq, grid_only, honest)
         pending: list[str] = []
         do_serve = rng.chance(serve)
         for a in feeder.schedule():
@@ -281,7 +282,7 @@ def dest_session(rng: Rng, grid_only: bool = False, fs_kind: str = "mem", n_tx: 
 
 # ------------------------------------------------------------------ source sessions
 def source_session(rng: Rng, fs_kind: str = "mem", cfg: Cfg | None = None, well_behaved: bool = False,
-                   n_tx: int | None = None) -> Session:
+                   n_tx: int | None = None, always_drain: bool = False, quiet: bool = False) -> Session:
     c = cfg or rand_cfg(rng)
     if cfg is None and not well_behaved:
         c.faults_s = rand_fault_table(rng, ["POSITIVE_ACK_LIMIT_REACHED", "CHECK_LIMIT_REACHED",
@@ -306,14 +307,14 @@ def source_session(rng: Rng, fs_kind: str = "mem", cfg: Cfg | None = None, well_
             st = s.sm("S")
             if st.ok and st.tid != "-":
                 seq_s = int(st.tid.split(":")[1].split("/")[0])
-            pd = s.drain("S") if rng.chance(0.95) or well_behaved else []
+            pd = s.drain("S") if rng.chance(0.95) or well_behaved or always_drain else []
             if any(pdu_kind(p) == "eof" for p in pd):
                 sent_eof = True
             if seq_s is None:
                 continue
             h = hdr(c, seq_s, direction="S")
             prog = st.prog if st.ok else 0
-            r = rng.random()
+            r = 2.0 if quiet else rng.random()
             if r < 0.25 and c.eff_mode == "A":
                 # NAK: mostly valid requests within progress, sometimes invalid
                 reqs = []
@@ -452,7 +453,7 @@ def link_session(rng: Rng, k_faults: int = 0, fs_kind: str = "mem", pacing: bool
     plan = rand_plan(rng, k_faults, n_sd + 2, 4, kinds) if k_faults else {}
     p = Pacing()
     if pacing:
-        p = Pacing(idle_s=rng.choice((1, 1, 2, 0)), idle_d=rng.choice((1, 1, 2, 0)),
+        p = Pacing(idle_s=rng.choice((1, 1, 2, 0)), idle_d=rng.choice((1, 1, 2, 0)),  # 0: only in unfair rounds
                    skip_s=rng.choice((0, 0.2, 0.5)), skip_d=rng.choice((0, 0.2, 0.5)),
                    hold=rng.choice((0, 0.3)), batch=rng.choice((99, 1, 2)))
         if p.idle_s == 0 and p.idle_d == 0:
